@@ -790,6 +790,24 @@ func c07R3(c *Ctx) {
 }
 
 // recoverGuarded: fn defers a closure that calls recover() and assigns a captured error variable.
+// isResultCell: the cell is what a return of fn hands back (a named result, read after the deferred calls ran) — an error
+// stored anywhere else by a deferred recover never reaches the caller.
+func isResultCell(fn *ssa.Function, cell ssa.Value) bool {
+	found := false
+	eachInstr(fn, func(r instrRef) {
+		ret, ok := r.I.(*ssa.Return)
+		if !ok {
+			return
+		}
+		for _, v := range ret.Results {
+			if u, ok := v.(*ssa.UnOp); ok && u.Op == token.MUL && u.X == cell {
+				found = true
+			}
+		}
+	})
+	return found
+}
+
 func recoverGuarded(fn *ssa.Function) bool {
 	ok := false
 	eachInstr(fn, func(r instrRef) {
@@ -815,7 +833,7 @@ func recoverGuarded(fn *ssa.Function) bool {
 			if pi < 0 || pi >= len(d.Call.Args) {
 				return
 			}
-			if _, isCell := d.Call.Args[pi].(*ssa.Alloc); !isCell {
+			if _, isCell := d.Call.Args[pi].(*ssa.Alloc); !isCell || !isResultCell(fn, d.Call.Args[pi]) {
 				return
 			}
 			hasRecover, setsErr := false, false
@@ -844,7 +862,10 @@ func recoverGuarded(fn *ssa.Function) bool {
 			if st, isSt := r2.I.(*ssa.Store); isSt {
 				if fv, isFV := st.Addr.(*ssa.FreeVar); isFV {
 					if p, isP := fv.Type().(*types.Pointer); isP && p.Elem().String() == "error" && !isNilConst(st.Val) {
-						setsErr = true
+						// the captured variable is the function's (named) error result, not a local of the same name
+						if cell := capturedCell(fv); cell != nil && isResultCell(fn, cell) {
+							setsErr = true
+						}
 					}
 				}
 			}
